@@ -490,6 +490,22 @@ func (c *simCluster) decodeBatches(r *ProduceRequest) []simBatchIn {
 			if rs.RecordBatch != nil {
 				rb := rs.RecordBatch
 				bi.pid, bi.epoch, bi.seq = rb.ProducerID, rb.ProducerEpoch, rb.FirstSequence
+				// what a broker validates before it appends a v2 batch: record i sits at base offset + i, and the batch
+				// header's last offset delta agrees with the number of records
+				wellFormed := int(rb.LastOffsetDelta) == len(rb.Records)-1
+				for i, rc := range rb.Records {
+					if rc.OffsetDelta != int64(i) {
+						wellFormed = false
+					}
+				}
+				if !wellFormed && len(rb.Records) > 0 {
+					var ds []int
+					for _, rc := range rb.Records {
+						ds = append(ds, int(rc.OffsetDelta))
+					}
+					c.rec.Ev("bad_request", kv{"what": fmt.Sprintf("record batch of partition %d: offset deltas %v, last offset delta %d for %d records",
+						p, ds, rb.LastOffsetDelta, len(rb.Records))})
+				}
 				for i, rc := range rb.Records {
 					var hs []RecordHeader
 					for _, h := range rc.Headers {
